@@ -55,7 +55,7 @@ def handleLine (line : String) : String :=
         | some ns =>
           let sorted := sortedBy (fun a b => bytesLe a.1 b.1) ns.name2id
           let gets := es.map fun e => VL.hexEncode ((aLookup e.2 ns.id2name).getD [])
-          s!"ok {pairsStr sorted} {" ".intercalate gets}"
+          " ".intercalate (["ok", pairsStr sorted] ++ gets)
       | _ => "bad-op"
     | none => "bad-op"
   | _ => "bad-op"
